@@ -30,7 +30,8 @@ EXPLANATION = (
 ASSUMPTIONS = ["std::unordered_map/std::vector/Value::equals compare as documented",
                "the topological order is shared with C01.a (Kahn template) which is checked there"]
 DECIDED = ["a interning key complete", "a2 canonicalisation compares everything", "b sinks / unique nodes never merge",
-           "c passive adjustment precedes identity", "c2 consumed argument tag is part of the identity", "d no hash-order decisions in ranking"]
+           "c passive adjustment precedes identity", "c2 consumed argument tag is part of the identity", "d no hash-order decisions in ranking",
+           'j capture de-duplication by same_source_as only']
 NOT_DECIDED = ["stream equality under reordering", "side effects of user sinks"]
 
 
